@@ -150,7 +150,7 @@ func recoverBarriers(f *ssa.Function) []*ssa.Defer {
 				}
 			}
 		})
-		if rec && !bad {
+		if rec && (!bad || (guardExitOK && recoverThenExitsNonZero(target))) {
 			out = append(out, d)
 		}
 	})
@@ -167,6 +167,11 @@ type guardResult struct {
 }
 
 // runGuard computes the unprotected sites reachable from entries.
+// guardExitOK: when true (C20), a process exit with a non-zero status is an
+// accepted way to end (error message + status), and a deferred function that
+// recovers and exits non-zero counts as a barrier.
+var guardExitOK bool
+
 func runGuard(p *Program, entries []*ssa.Function, exclude ...*ssa.Function) *guardResult {
 	excl := map[*ssa.Function]bool{}
 	for _, f := range exclude {
@@ -222,6 +227,11 @@ func runGuard(p *Program, entries []*ssa.Function, exclude ...*ssa.Function) *gu
 		_, unprot := res.Unprot[f]
 		for _, s := range guardSites(f, helpers) {
 			if !recoverable(s.Kind) {
+				if cl, isCall := s.Ins.(ssa.CallInstruction); isCall && guardExitOK && exitIsNonZero(cl, s.Kind) {
+					res.Protected++
+					res.ProtSites = append(res.ProtSites, s)
+					continue // ends the command with an error status: allowed by the property
+				}
 				// a process exit cannot be recovered: reachable at all = unprotected
 				res.Sites = append(res.Sites, s)
 				continue
@@ -235,6 +245,35 @@ func runGuard(p *Program, entries []*ssa.Function, exclude ...*ssa.Function) *gu
 		}
 	}
 	return res
+}
+
+// recoverThenExitsNonZero: the deferred function recovers and its only
+// "bad" action is os.Exit with a non-zero constant / a Fatal log call.
+func recoverThenExitsNonZero(f *ssa.Function) bool {
+	ok := true
+	eachInstr(f, func(_ *ssa.BasicBlock, j ssa.Instruction) {
+		switch y := j.(type) {
+		case *ssa.Panic:
+			ok = false
+		case ssa.CallInstruction:
+			if k := exitCallKind(y); k != "" && !exitIsNonZero(y, k) {
+				ok = false
+			}
+		}
+	})
+	return ok
+}
+
+func exitIsNonZero(cl ssa.CallInstruction, kind string) bool {
+	if strings.Contains(kind, ".Fatal") {
+		return true
+	}
+	if kind == "os.Exit" && len(cl.Common().Args) == 1 {
+		if k, ok := constInt(cl.Common().Args[0]); ok && k != 0 {
+			return true
+		}
+	}
+	return false
 }
 
 func recoverable(kind string) bool {
